@@ -55,7 +55,7 @@ DATAGRAMS = [
 class C19(Check):
     ID = 'C19'
     TIERS = {'quick': {'runs': 40000, 'wall': 60}, 'thorough': {'runs': 1500000, 'wall': 700}}
-    RULE = ('[15 % of the cases start the responder through the real Server.run with 1..3 tcp interfaces of which some are '
+    RULE = ('[server mode: a restart in 30 % of the cases with discovery broadcasts every 30 ms during the restart and the shutdown, delivered to every socket bound to the port; request text in UTF-16/UTF-32/with byte order mark among the datagrams] ' '[15 % of the cases start the responder through the real Server.run with 1..3 tcp interfaces of which some are '
             'held by another listener for 0.2 s .. for ever] case = equipment id + description (alphabet in {ascii, JSON escapes, multi-byte, mixed}, lengths around the '
             '508 byte budget) + interface list (tcp / ws entries) + datagram sequence from 1..3 peers (valid requests, '
             'other JSON values, invalid UTF-8, empty, oversized) with loss, duplication, reordering and truncation at '
